@@ -43,7 +43,7 @@ impl TraitHandler for HashUnionHandler {
                 #[inline]
                 fn hash<#hasher_ident: ::core::hash::Hasher>(&self, state: &mut #hasher_ident) {
                     let size = ::core::mem::size_of::<Self>();
-                    let data = unsafe { ::core::slice::from_raw_parts(self as *const Self as *const u8, size) };
+                    let data = unsafe { ::core::slice::from_raw_parts(self as *const Self as *const ::core::primitive::u8, size) };
 
                     ::core::hash::Hash::hash(data, state)
                 }
